@@ -246,6 +246,55 @@ func genAmbient() string {
 		rows = append(rows, row{"extractor", "-", "-", "typed loading failed: " + strings.Split(err.Error(), "\n")[0]})
 	}
 	_ = token.NoPos
+	// callers of the functions that range over a map: (callee, file, calling function) for every call in consensus code
+	// whose callee NAME is one of those functions (by name: an over-approximation; the defining function itself excluded)
+	type crow struct{ callee, file, fn string }
+	var callers []crow
+	mapFns := map[string]bool{}
+	for _, m := range maps {
+		n := m.fn
+		if i := strings.LastIndex(n, "."); i >= 0 {
+			n = n[i+1:]
+		}
+		mapFns[n] = true
+	}
+	for _, f := range files {
+		if !consensusFile(f) || strings.HasSuffix(f, ".pb.go") || strings.HasSuffix(f, ".pb.gw.go") {
+			continue
+		}
+		for _, d := range parsed[f].Decls {
+			fd, ok := d.(*ast.FuncDecl)
+			if !ok || fd.Body == nil {
+				continue
+			}
+			name := fd.Name.Name
+			if rn := recvName(fd); rn != "" {
+				name = rn + "." + name
+			}
+			seen := map[string]bool{}
+			ast.Inspect(fd.Body, func(n ast.Node) bool {
+				c, ok := n.(*ast.CallExpr)
+				if !ok {
+					return true
+				}
+				callee := ""
+				switch fn := c.Fun.(type) {
+				case *ast.Ident:
+					callee = fn.Name
+				case *ast.SelectorExpr:
+					callee = fn.Sel.Name
+				}
+				if mapFns[callee] && callee != fd.Name.Name && !seen[callee] {
+					seen[callee] = true
+					callers = append(callers, crow{callee, f, name})
+				}
+				return true
+			})
+		}
+	}
+	sort.SliceStable(callers, func(i, j int) bool {
+		return callers[i].callee+"|"+callers[i].file+"|"+callers[i].fn < callers[j].callee+"|"+callers[j].file+"|"+callers[j].fn
+	})
 	sort.SliceStable(rows, func(i, j int) bool { return rows[i].file+rows[i].fn+rows[i].what < rows[j].file+rows[j].fn+rows[j].what })
 	sort.SliceStable(maps, func(i, j int) bool { return maps[i].file+maps[i].fn+maps[i].expr < maps[j].file+maps[j].fn+maps[j].expr })
 	sort.SliceStable(pbmaps, func(i, j int) bool { return pbmaps[i].file+pbmaps[i].msg+pbmaps[i].field < pbmaps[j].file+pbmaps[j].msg+pbmaps[j].field })
@@ -274,6 +323,14 @@ func genAmbient() string {
 			c = ""
 		}
 		fmt.Fprintf(&sb, "  (%q, %q, %q)%s\n", r.file, r.msg, r.field, c)
+	}
+	sb.WriteString("]\n\n/-- calls, in consensus code, of the functions that range over a map: (callee name, file, calling function) -/\ndef mapRangeCallers : List (String × String × String) := [\n")
+	for i, r := range callers {
+		c := ","
+		if i == len(callers)-1 {
+			c = ""
+		}
+		fmt.Fprintf(&sb, "  (%q, %q, %q)%s\n", r.callee, r.file, r.fn, c)
 	}
 	sb.WriteString("]\nend Sekai.Gen.Ambient\n")
 	return sb.String()
